@@ -127,6 +127,11 @@ def check_model(ctx, name, L, p, d=None, label=()):
                 if np.abs(Rk).max() > 100 * 1e-16 * sc:
                     ctx.close('model.small-term-present', float(np.abs((M - rest) - Rk).max()), 0.01 * float(np.abs(Rk).max()) + 1e-15 * sc * L, f'term {k} with tiny coefficient {p[k]} is missing or wrong', detail)
     ctx.close('model.hermitian', float(np.abs(M - M.conj().T).max()), 1e-12 * sc * L, 'not Hermitian for real parameters', detail)
+    if ctx.cur[1] % 5 == 0:
+        def later(H=H, R=R, tol=1e-12 * sc * L, name=name):
+            ctx.close('model.result-still-valid-after-later-constructions', float(np.abs(refs.dense_operator(H.A) - R).max()), tol,
+                      f'an MPO returned earlier by the {name} constructor changed when later MPOs were built (shared state)', None)
+        ctx.hold(later)
     ctx.close('model.as_matrix', float(np.abs(np.asarray(H.as_matrix()) - M).max()), 1e-12 * sc * L, 'as_matrix differs from the independent contraction', detail)
 
 
